@@ -21,6 +21,7 @@ mod c08;
 mod c09;
 mod c11;
 mod c12;
+mod c13;
 mod sendsys;
 mod chan;
 
@@ -78,6 +79,7 @@ fn main() {
             "C09" => c09::replay(&v["replay"]),
             "C11" => c11::replay(&v["replay"]),
             "C12" => c12::replay(&v["replay"]),
+            "C13" => c13::replay(&v["replay"]),
             _ => {
                 eprintln!("no replay for {}", id);
                 std::process::exit(2);
@@ -105,6 +107,7 @@ fn main() {
             "C09" => c09::run(thorough),
             "C11" => c11::run(thorough),
             "C12" => c12::run(thorough),
+            "C13" => c13::run(thorough),
             other => {
                 eprintln!("unknown check {}", other);
                 2
